@@ -9,7 +9,7 @@ PROPERTY_ID = "C08"
 RULE = ("templates = typed filters of the ORM fragment (all operators, in-lists, every string/date/math function, "
         "GUID comparisons) whose literal holes (string, int, real, date, date-time, GUID, list elements; booleans "
         "and null are keywords, not values) are filled by two assignments of distinct sentinel values (strings "
-        "with SQL metacharacters and a unique marker, integers >= 10^6 ...); compiled (not executed) through "
+        "with SQL metacharacters and a unique marker - some with 17+ quotes or 40 wildcards and hundreds of characters -, integers >= 10^6 and beyond 64 bits, decimals with 17 and 35+ significant digits ...); compiled (not executed) through "
         "Django sql_with_params, SQLAlchemy ORM and Core compile. Oracle: both assignments give the identical SQL "
         "string and no sentinel's text occurs in it (how many sentinels reach the parameter list is measured: an ORM may fold constant sub-conditions away). Non-trivial: >= 1 "
         "string hole inside a function argument or list, or >= 3 holes; distinct by (template, backend)."
@@ -29,6 +29,9 @@ def sentinel(kind, n, which):
         m = "zq%s%dx" % (which, n)
         if which == "B" and n % 2 == 0:
             return (m, m)          # a plain value: the SQL must not depend on *whether* metacharacters occur
+        if n % 5 == 4:
+            # long along the size ladder: many quotes / wildcards, hundreds of characters
+            return (m + ("'" * 17 if which == "A" else "%_" * 20) + "x" * (300 if n % 2 else 70) + "' --", m)
         return ("' OR 1=1; -- %s %%_\\ \"" % m, m)
     if kind == "int":
         v = base * 1000000 + 7 * n + 13
@@ -37,7 +40,11 @@ def sentinel(kind, n, which):
         return (str(v), str(v))
     if kind == "float":
         v = "%d.%s" % (base * 12345 + n, "25" if which == "A" else "75")
-        return (v, v)
+        if n % 4 == 2:
+            v = "%d.%s" % (base * 12345 + n, "1234567890123456" + ("25" if which == "A" else "75"))   # > 15 significant digits
+        elif n % 4 == 3:
+            v = "%d%s.5" % (base * 12345 + n, "0123456789" * 3)                                       # 35 digits before the point
+        return (v, v[:9])
     if kind == "date":
         d = "%d-%02d-%02d" % (2030 + base, 1 + n % 12, 1 + n % 28)
         return (d, d)
